@@ -480,6 +480,9 @@ P_C09(pre, e) ==
 P_C07T(pre, e) ==
     LET post == e.st IN
     /\ (e.ev = "exec" =>
+          \* the dates the simulated exchange reports (placed / cancelled) are the time of this execution
+          /\ Ck("C07", "ResponseDatedAtExecution", \A i \in DOMAIN e.a.rdates : e.a.rdates[i][3] = post.clock,
+                {e.a.rdates[i] : i \in {j \in DOMAIN e.a.rdates : e.a.rdates[j][3] # post.clock}})
           /\ Ck("C07", "ExecutedAgainstPrevBook",
                 Has(pre.mkt, e.a.mid) /\ e.a.book.pt = pre.mkt[e.a.mid].pt /\ e.a.book.pt <= pre.clock, <<e.a.book.pt, pre.clock>>)
           /\ Ck("C07", "DelayCharged",
